@@ -1,7 +1,11 @@
 import P2.Props.C12
-open P2.Props.C12
-#print axioms foldPath_inj
-#print axioms foldPath_index
-#print axioms verify_binds
-#print axioms other_opening_rejected
-#print axioms altered_cap_rejected
+import P2.Props.C12b
+#print axioms P2.Props.C12.foldPath_inj
+#print axioms P2.Props.C12.foldPath_index
+#print axioms P2.Props.C12.verify_binds
+#print axioms P2.Props.C12.other_opening_rejected
+#print axioms P2.Props.C12.altered_cap_rejected
+#print axioms P2.Props.C12.fillSubtree_root
+#print axioms P2.Props.C12.cap_eq_levelwise
+#print axioms P2.Props.C12.prove_verifies
+#print axioms P2.Props.C12.prove_siblings
